@@ -178,6 +178,28 @@ func parserKeywords(c *core.Ctx) map[string]string {
 						}
 					}
 				}
+			case *ssa.MapUpdate:
+				// a dispatch table: map[keyword]func(...) built in the package initialiser
+				k, ok := core.ConstString(x.Key)
+				if !ok {
+					return
+				}
+				if f := core.FuncValue(x.Value); f != nil {
+					core.EachInstr(f, func(i2 ssa.Instruction) {
+						if call, ok := i2.(*ssa.Call); ok && call.Call.StaticCallee() != nil && core.PkgPathOf(call.Call.StaticCallee()) == pkgParser {
+							if t := returnsType(call.Call.StaticCallee()); t != "" {
+								if _, dup := res[k]; !dup {
+									res[k] = t
+								}
+							}
+						}
+					})
+					if t := returnsType(f); t != "" {
+						if _, dup := res[k]; !dup {
+							res[k] = t
+						}
+					}
+				}
 			case *ssa.Call:
 				// ReadString("include") inside parseInclude
 				if callee := x.Call.StaticCallee(); callee != nil && core.PkgPathOf(callee) == pkgScanner && callee.Name() == "ReadString" {
@@ -933,12 +955,13 @@ func RuleFDirectiveTypes(c *core.Ctx) {
 					if !ok {
 						return
 					}
-					callee := call.Common().StaticCallee()
-					if callee == nil || callee.Blocks == nil || fns[callee] || core.PkgPathOf(callee) != core.PkgPathOf(root) {
-						return
+					for _, callee := range p.Callees(call) {
+						if callee == nil || callee.Blocks == nil || fns[callee] || core.PkgPathOf(callee) != core.PkgPathOf(root) {
+							continue
+						}
+						fns[callee] = true
+						next = append(next, callee)
 					}
-					fns[callee] = true
-					next = append(next, callee)
 				})
 			}
 			frontier = next
